@@ -218,7 +218,7 @@ Proof.
 Qed.
 Print Assumptions c05_setdesc_rejected_keeps_target.
 
-(* FINDING (findings/C05.md #2): the full statement "rejected, everything unchanged" is REFUTED by
+(* FINDING (findings/C05.md #3): the full statement "rejected, everything unchanged" is REFUTED by
    the faithful model: parseTopicAccess overwrites the error of auth by the result for anon *)
 Definition c05_setdesc_junk_rejected_statement : Prop := set_desc_junk_rejected_statement.
 Theorem c05_setdesc_junk_rejected_refuted : ~ c05_setdesc_junk_rejected_statement.
@@ -279,7 +279,7 @@ Theorem c05_acc_rejected_anon_keeps_default : forall acs,
 Proof. exact acc_rejected_anon_keeps. Qed.
 Print Assumptions c05_acc_rejected_anon_keeps_default.
 
-(* FINDING (findings/C05.md #3): replyCreateUser ignores the error of UnmarshalText and sanitises the
+(* FINDING (findings/C05.md #4): replyCreateUser ignores the error of UnmarshalText and sanitises the
    untouched default: a text that is not a mode text turns the default JRWPAS into JRWPA *)
 Definition c05_acc_rejected_auth_keeps_statement : Prop := acc_rejected_auth_keeps_statement.
 Theorem c05_acc_rejected_auth_keeps_refuted : ~ c05_acc_rejected_auth_keeps_statement.
